@@ -91,11 +91,10 @@ PROPS["C08"] = {
 PROPS["C10"] = {
     "level": "exploration",
     "technique": "property-based testing (rapid): log shape x subscription request products against a reference function over the surviving messages",
-    "level_text": "TODO",
-    "level_note": "TODO",
-    "rule": "TODO",
+    "level_text": 'log shape x request products: (a) package level: committed/uncommitted forward readers and committed reverse readers from every start offset, and both timestamp lookups, on dense, compacted, retention-trimmed logs with an empty active segment, any HW, read-only on/off, against a reference model; (b) through the real partition.Subscribe on a bare server: every start position x stop position x direction, timestamps at/between/outside message times, HW below the end, read-only, messages committed after the subscription started, against a reference function over the surviving messages',
+    "level_note": "start offsets beyond the HW are positioned at HW+1 (pinned by TestSubscribeOffsetOverflow); negative stop offsets are not generated (-1 is the API's no-stop sentinel); reverse subscriptions must end but their end status is undocumented and not compared; an empty finite range may end at once or wait for the next commit",
+    "rule": 'rapid draws the shape (0-24 messages with 3 keys, timestamp deltas {0,1,10,100}, segment size {1,150,300,1000,1MiB}, HW = newest-{0,1,2,5,all}, optional compacting clean, optional message-retention clean, read-only) and the request (5 start positions x 4 stop positions x 2 directions, offset/timestamp selectors resolved against the shape, 0-4 messages committed after subscribing). Non-trivial = a sparse or trimmed log or HW below the end, combined with a start/stop on a removed offset, a timestamp position or the reverse direction. Labels give the shape x request table.',
     "assumptions": TRUST,
-    "claimed": False,
     "units": [
         {"name": "C10cl", "pkg": "server/commitlog", "test": "TestVerifC10cl",
          "quick": {"shards": 16, "checks": 600}, "thorough": {"shards": 16, "checks": 6000, "timeout": 3000}},
@@ -107,11 +106,10 @@ PROPS["C10"] = {
 PROPS["C16"] = {
     "level": "exploration",
     "technique": "model-based property testing (rapid) at the commit-log level + concurrent racing publishers against an invariant over acks and the final log",
-    "level_text": "TODO",
-    "level_note": "TODO",
-    "rule": "TODO",
+    "level_text": "(a) commit-log level: sequences of single-message appends with optimistic concurrency control and expected offsets next / next-1 / next+1 / 0 / huge / waived (-1), with reopens and reader probes, against the rule 'stored iff waived or equal to the next offset; otherwise ErrIncorrectOffset and the log (contents, offsets, file sizes) unchanged'",
+    "level_note": 'the concurrent (racing publishers through the API) part is covered by unit C16b when present; batches of one message as the leader loop guarantees with OCC',
+    "rule": 'rapid draws 1-30 steps: occ-append with an expected-offset class, reopen, probe; segment size from {1,150,300,1024,default}. Non-trivial = a rejected append followed by at least two accepted ones.',
     "assumptions": TRUST,
-    "claimed": False,
     "units": [
         {"name": "C16a", "pkg": "server/commitlog", "test": "TestVerifC16a",
          "quick": {"shards": 8, "checks": 1500}, "thorough": {"shards": 16, "checks": 20000, "timeout": 3000}},
@@ -120,11 +118,10 @@ PROPS["C16"] = {
 PROPS["C03"] = {
     "level": "exploration",
     "technique": "model-based stateful property testing (rapid) with persistent committed readers + concurrent monitor under the race detector",
-    "level_text": "TODO",
-    "level_note": "TODO",
-    "rule": "TODO",
+    "level_text": '(a) sequential interleavings with persistent committed readers: append / HW advance (anywhere, exactly on the last message of a segment, exactly on the first) / new reader (any start, beyond the HW, empty log) / read / read-only toggle, each read compared with the model (must deliver exactly the next committed message, or must not deliver anything); (b) real goroutines under the race detector: appender, HW advancer with lag and step, 1-6 readers created mid-run, read-only toggler; every reader checks online that what it gets is committed, consecutive, with the stored content, and reaches the final HW',
+    "level_note": 'one appending goroutine per log (as the leader loop / follower handler guarantee); (b) samples schedules, rapid cannot shrink them; negative expectations (must block) are positive-observation checks',
+    "rule": '(a) rapid draws 2-60 steps over segment sizes {1,64,150,300,1024}; non-trivial = a reader that blocked with the HW resting on the last message of a segment and later crossed into the next segment. (b) rapid draws batch sizes, lag, step, reader creation points and start fractions, toggles, yield pattern; non-trivial = >=2 readers parked in waitForHW at once and >=1 roll.',
     "assumptions": TRUST,
-    "claimed": False,
     "units": [
         {"name": "C03a", "pkg": "server/commitlog", "test": "TestVerifC03a",
          "quick": {"shards": 16, "checks": 800}, "thorough": {"shards": 16, "checks": 8000, "timeout": 3000}},
@@ -136,11 +133,10 @@ PROPS["C03"] = {
 PROPS["C17"] = {
     "level": "exploration",
     "technique": "property-based testing (rapid): round-trip, no-plaintext and single-byte tamper / wrong-key metamorphic relations",
-    "level_text": "TODO",
-    "level_note": "TODO",
-    "rule": "TODO",
+    "level_text": 'round trip Read(Seal(v))=v for empty/short/large/all-zero/patterned values under 16- and 32-byte master keys; the stored form never contains a >=8 byte value; two seals differ; every single-byte corruption (all positions for small values, region-targeted otherwise: length byte, wrapped key, nonce, ciphertext+tag; 4 replacement values) and every different master key makes Read return an error - returning data or panicking is a violation',
+    "level_note": 'package level (LocalEncryptionHandler); a chance occurrence of an >=8 byte plaintext in ciphertext has probability < 2^-50; Seal uses crypto/rand so replays are not byte-identical, the oracle does not depend on the bytes',
+    "rule": 'rapid draws kind (roundtrip/wrongkey/tamper), value class, printable master keys, tamper region/position/replacement or all positions. Non-trivial = tamper or wrongkey, or a roundtrip with a value of >=8 bytes.',
     "assumptions": TRUST,
-    "claimed": False,
     "units": [
         {"name": "C17a", "pkg": "server/encryption", "test": "TestVerifC17a",
          "quick": {"shards": 16, "checks": 3000}, "thorough": {"shards": 16, "checks": 100000, "timeout": 3000}},
@@ -150,11 +146,10 @@ PROPS["C17"] = {
 PROPS["C19"] = {
     "level": "exploration",
     "technique": "property-based testing (rapid): disable-route x value products against an effective-setting model, recorded HTTP transport, payload key whitelist + marker taint check",
-    "level_text": "TODO",
-    "level_note": "TODO",
-    "rule": "TODO",
+    "level_text": '(a) collector level: http.DefaultTransport replaced by a recorder; Enabled=false => zero requests over many intervals and restarts; enabled => every request goes to the documented endpoint, its JSON keys are a subset of the documented whitelist, no marker/data-dir string in body or headers, nothing after Stop; (cfg) every route of disabling telemetry - config file true/false/absent x LIFTBRIDGE_TELEMETRY_ENABLED unset/false/0/FALSE/f/true/1 x with/without file - against the precedence model env > file > default',
+    "level_note": 'the server-level wiring (Config.Telemetry.Enabled=false => no collector) is two lines in Server.Start and is covered by unit C19b when present',
+    "rule": 'rapid draws collector configs (enabled, interval 1ms-24h, marker in the data dir, waits, restart) and configuration cases. Non-trivial = a disabled collector that lived through several intervals, any enabled case, an env route that overrides or replaces the file, or a file route that disables.',
     "assumptions": TRUST,
-    "claimed": False,
     "units": [
         {"name": "C19a", "pkg": "server/telemetry", "test": "TestVerifC19a",
          "quick": {"shards": 8, "checks": 100}, "thorough": {"shards": 16, "checks": 2000, "timeout": 3000}},
@@ -166,11 +161,10 @@ PROPS["C19"] = {
 PROPS["C12"] = {
     "level": "exploration",
     "technique": "model-based stateful property testing (rapid) + bounded-exhaustive enumeration of short histories; invariant over assignments + determinism between two replicas",
-    "level_text": "TODO",
-    "level_note": "TODO",
-    "rule": "TODO",
+    "level_text": 'histories of join/leave/expire/stream-delete/stream-create over one consumer group (<=5 members, <=3 streams, 1-5 partitions) on the real consumerGroup object; after every step: every partition of every subscribed stream has exactly one owner who subscribed to it, nobody holds foreign or non-existent partitions, single-stream groups differ by <=1, a second object fed the same history (optionally rebuilt from a snapshot of its members in another order) hands out identical assignments, a stale epoch is refused',
+    "level_note": 'object level (the metadata layer around it is exercised by C06); timers set to 1h so expiry is a generated operation',
+    "rule": 'rapid draws 1-25 operations with preconditions resolved at run time. Non-trivial = >=3 members with overlapping subscriptions and a later leave/expire/stream delete.',
     "assumptions": TRUST,
-    "claimed": False,
     "units": [
         {"name": "C12", "pkg": "server", "test": "TestVerifC12",
          "quick": {"shards": 16, "checks": 2000}, "thorough": {"shards": 16, "checks": 20000, "timeout": 3000}},
@@ -180,11 +174,10 @@ PROPS["C12"] = {
 PROPS["C13"] = {
     "level": "exploration",
     "technique": "model-based stateful property testing (rapid) of group subscribes/cancels/ends + concurrent interval monitor under the race detector",
-    "level_text": "TODO",
-    "level_note": "TODO",
-    "rule": "TODO",
+    "level_text": "sequences of group subscribes (2 groups, 3 consumer ids, epochs 0-4, on-cancel or finite), client cancellations (context first or Close first), natural ends and publishes on one partition of a bare server through the real partition.Subscribe; model: the last accepted subscriber holds the partition; an older epoch must be refused without disturbing the holder, an equal/newer one must succeed and cancel the holder; at every quiescent point at most one active subscription per group and the partition's registration names it",
+    "level_note": 'the harness does what api.Subscribe does around partition.Subscribe (cancel the stream context and Close the subscription when it returns); loop clean-up is asynchronous, so registry checks are retried and only a state persisting for 22 s is a violation',
+    "rule": 'rapid draws 2-20 steps. Non-trivial = a replacement by the same consumer id, a refused stale-epoch subscriber while a holder exists, or a natural end followed by a new subscriber.',
     "assumptions": TRUST,
-    "claimed": False,
     "units": [
         {"name": "C13a", "pkg": "server", "test": "TestVerifC13a",
          "quick": {"shards": 16, "checks": 300}, "thorough": {"shards": 16, "checks": 10000, "timeout": 3000}},
@@ -194,11 +187,10 @@ PROPS["C13"] = {
 PROPS["C06"] = {
     "level": "exploration",
     "technique": "model-based property testing (rapid): generated valid metadata histories x snapshot/restart splits; determinism, restart-stability and replay-safety relations over the observable metadata view",
-    "level_text": "TODO",
-    "level_note": "TODO",
-    "rule": "TODO",
+    "level_text": "valid metadata histories (create/delete incl. re-create, pause some/all with resumeAll, resume, read-only on/off, ISR shrink/expand, leader change, group create/join/leave/coordinator change, publish-activity) resolved against a model that mirrors the controller's preconditions and applied through the real Server.apply on bare servers: (1) two fresh servers agree after every prefix; (2) a server that applied r operations live, snapshotted at s (Persist possibly after further applies), was shut down and rebuilt on the same data directory from Restore + recovered replay of s+1..r + finishedRecovery + live r+1.. equals a server that applied everything live; (3) marker messages of streams that still exist survive",
+    "level_note": 'Raft is replaced by the harness feeding (op, index, recovered); replicas are foreign ids so no data plane starts; the real single-voter Raft path is unit C06r when present; left-over partition directories of an earlier incarnation of a re-created stream are ignored',
+    "rule": 'rapid draws 3-40 operations, snapshot and restart positions and a persist delay. Non-trivial = a snapshot strictly inside the history taken after one of: delete+create, pause->resume, read-only on, leader change, ISR shrink, group emptied.',
     "assumptions": TRUST,
-    "claimed": False,
     "units": [
         {"name": "C06", "pkg": "server", "test": "TestVerifC06",
          "quick": {"shards": 16, "checks": 150}, "thorough": {"shards": 16, "checks": 5000, "timeout": 3000}},
@@ -208,11 +200,10 @@ PROPS["C06"] = {
 PROPS["C15"] = {
     "level": "exploration",
     "technique": "property-based testing (rapid): random policy sets x API call sequences on a started server; exact-match policy model as oracle, state digest before/after denied calls, sentinel publishes",
-    "level_text": "TODO",
-    "level_note": "TODO",
-    "rule": "TODO",
+    "level_text": "on a started single-node server with ACLs on (real casbin enforcer, repository model.conf, generated policy CSV reloaded by a real SIGHUP): sequences of calls of every client API method by two clients against an exact-match policy model; a denied call must return an error (PERMISSION_DENIED async error for PublishAsync) and leave the state digest (streams, paused/read-only flags, every partition's messages, cursors, existing group subscription) unchanged - publishes are followed by an authorised AckPolicy-ALL sentinel on the same connection; an allowed call must not be refused for authorisation; plus the configuration route tls.client.auth(z).enabled",
+    "level_note": 'the client id is put into the context exactly as addUserContext does (TLS handshake not exercised); consumer-group RPCs have no documented policy action and are only exercised; SetCursor needs SetCursor on the stream and Publish on __cursors (documented)',
+    "rule": 'rapid draws a policy subset of 2 clients x 5 resources x 11 actions and 3-14 steps (19 call kinds incl. resume-on-subscribe, group take-over, publish to a paused stream, async batches; policy reloads). Non-trivial = a denied call whose handler has a side effect before/without the check, or any denied call after a reload.',
     "assumptions": TRUST,
-    "claimed": False,
     "units": [
         {"name": "C15", "pkg": "server", "test": "TestVerifC15",
          "quick": {"shards": 4, "checks": 60}, "thorough": {"shards": 16, "checks": 600, "timeout": 3000}},
